@@ -1,2 +1,56 @@
-From MV Require Import Common.Batch C15.Model.
-Theorem C15_placeholder : True. Proof. exact I. Qed.
+(* C15 -- Importing a block range stores every block.  Property theorems only.
+   Model: C15/Model.v (ImportBlocks / saveImporters of isaac/block/import_block.go over the shared
+   util.BatchWork model Common/Batch.v). *)
+From Coq Require Import List ZArith Arith.
+From MV Require Import Common.Batch C15.Model C15.Proofs.
+Import ListNotations.
+
+(* For every range from <= to, every batch limit >= 1, every behaviour of the importers / block-map
+   source / merge callback ([F]: which calls fail) and every order in which the jobs of each batch
+   take effect: if ImportBlocks reports success, then the blocks saved (Save) and merged (deferred
+   function of Save) are exactly from, from+1, ..., to -- so the last stored height is [to]. *)
+Theorem C15_success_saves_all : forall F limit (from to : Z) orders lg,
+  1 <= limit -> (from <= to)%Z ->
+  let count := Z.to_nat (to - from + 1) in
+  valid_orders (batches count limit) orders ->
+  import_blocks F limit count orders = Ok lg ->
+  map (height_of from) (deferreds lg) = zrange from count /\
+  map (height_of from) (saves lg) = zrange from count /\
+  last (map (height_of from) (deferreds lg)) (from - 1)%Z = to.
+Proof. exact success_saves_all_heights. Qed.
+
+(* ... and, when a merge callback is given, every block's Save is followed by its deferred merge
+   and later by a run of mergeBlockWriterDatabasesf; the history ends with that callback. *)
+Theorem C15_success_each_merged : forall F limit count orders lg,
+  1 <= limit -> 1 <= count ->
+  valid_orders (batches count limit) orders ->
+  import_blocks F limit count orders = Ok lg ->
+  saves lg = seq 0 count /\ deferreds lg = seq 0 count /\
+  (has_merge F = true ->
+     (forall i, i < count -> exists l1 l2 l3, lg = l1 ++ ESave i :: l2 ++ EDeferred i :: l3 /\ In EMerge l3) /\
+     exists l, lg = l ++ [EMerge]).
+Proof. exact success_saves_all. Qed.
+
+(* the batches BatchWork hands out cover [0..size-1] exactly (no fuel exhaustion in the model) *)
+Theorem C15_batches_cover : forall size limit, 1 <= limit -> 1 <= size ->
+  concat (map snd (batches size limit)) = seq 0 size.
+Proof. exact batches_concat. Qed.
+
+(* non-vacuity: the formerly failing inputs now succeed and store everything *)
+Example C15_example_3_3 :
+  import_blocks (no_faults true) 3 3 (in_order (batches 3 3)) =
+  Ok [ESave 0; ESave 1; ESave 2; EDeferred 0; EDeferred 1; EDeferred 2; EMerge].
+Proof. vm_compute. reflexivity. Qed.
+
+Example C15_example_4_2 :
+  import_blocks (no_faults true) 2 4 (in_order (batches 4 2)) =
+  Ok [ESave 0; ESave 1; EDeferred 0; EDeferred 1; EMerge; ESave 2; ESave 3; EDeferred 2; EDeferred 3; EMerge].
+Proof. vm_compute. reflexivity. Qed.
+
+(* history: with the guard the code had before the fix (`if int64(len(ims)) < batchlimit`) the same
+   inputs report success with the last batch never saved *)
+Example C15_old_guard_3_3 : import_blocks_old (no_faults true) 3 3 (in_order (batches 3 3)) = Ok [].
+Proof. vm_compute. reflexivity. Qed.
+Example C15_old_guard_4_2 :
+  import_blocks_old (no_faults true) 2 4 (in_order (batches 4 2)) = Ok [ESave 0; ESave 1; EDeferred 0; EDeferred 1; EMerge].
+Proof. vm_compute. reflexivity. Qed.
